@@ -57,7 +57,9 @@ def expected (requireDocstring : Bool) (f : FnD) (s : SDoc) : Out :=
     (if Consistent f s then .ok else .raised "PedanticDocstringException")
   else .ok
 
-/-- a class decorated with `pedantic_class_require_docstring`: every method is checked; decoration succeeds iff all are consistent -/
+/-- a class decorated with `pedantic_class_require_docstring`: every function of the class is checked — methods, static and class
+    methods, and the getter, setter and deleter of every property alike (the specification does not distinguish them); decoration
+    succeeds iff all are consistent -/
 def expectedClass : List (FnD × SDoc) → Out
   | [] => .ok
   | (f, s) :: rest => if Consistent f s ∧ expectedClass rest = .ok then .ok else .raised "PedanticDocstringException"
@@ -69,6 +71,12 @@ def expectedClassPlain : List (FnD × SDoc) → Out
   | [] => .ok
   | (f, s) :: rest =>
     if expected false f s = .ok ∧ expectedClassPlain rest = .ok then .ok else .raised "PedanticDocstringException"
+
+/-- several functions decorated one after the other (`requireDocstring` per decoration): every one of them is judged on its own
+    signature and docstring, however often the same `def` has been executed before -/
+def expectedSeq : List (Bool × FnD × SDoc) → Out
+  | [] => .ok
+  | (r, f, s) :: rest => if expected r f s = .ok ∧ expectedSeq rest = .ok then .ok else .raised "PedanticDocstringException"
 
 /-! ### the views the specification is applied to -/
 
